@@ -5,6 +5,7 @@ package drpcserver
 
 import (
 	"context"
+	"errors"
 	"net"
 	"sync"
 	"time"
@@ -111,6 +112,16 @@ func (s *Server) ServeOne(ctx context.Context, tr drpc.Transport) (err error) {
 	}
 }
 
+// ignoreCanceled drops the error a stream reports for its final packet when the
+// remote canceled the stream while that packet was being written: the rpc is
+// over, but nothing is wrong with the connection, so it keeps being served.
+func ignoreCanceled(err error) error {
+	if errors.Is(err, context.Canceled) {
+		return nil
+	}
+	return err
+}
+
 var temporarySleep = 500 * time.Millisecond
 
 // Serve listens for connections on the listener and serves the drpc request
@@ -165,9 +176,9 @@ func (s *Server) Serve(ctx context.Context, lis net.Listener) (err error) {
 func (s *Server) handleRPC(stream *drpcstream.Stream, rpc string) (err error) {
 	err = s.handler.HandleRPC(stream, rpc)
 	if err != nil {
-		return errs.Wrap(stream.SendError(err))
+		return errs.Wrap(ignoreCanceled(stream.SendError(err)))
 	}
-	if err := stream.CloseSend(); err != nil {
+	if err := ignoreCanceled(stream.CloseSend()); err != nil {
 		return errs.Wrap(err)
 	}
 	// the handler has returned, so nothing will ever receive on this stream
